@@ -11,7 +11,7 @@ def s_jobs(tier):
     return [chrun.SJob("vlib.sh.c18a", "c18a", base.parts(20), t,
                        what="simplify_chained_calls on a literal projection in 4 positions (direct, after Select-Select fusion, behind First(), inside a Where "
                             "predicate over a packaged Select) x 5 container kinds (tuple, list, dict with str keys, dict with int keys, dict with a symbolic key); "
-                            "symbolic: selector kind (8: int constant, bool, None, str, attribute, unary minus, slice, float), its value (int in [-5,5], any str "
+                            "symbolic: selector kind (11: int constant, bool, None, str, attribute, unary minus, float, four slice forms 0:k, k:, ::k, 1:3:k with k case-split), its value (int in [-5,5], any str "
                             "len<=2), container arity 0..3; oracle: returns an AST that CPython compiles and unparses, or FuncADLIndexError exactly when a constant "
                             "int index is beyond the end of a tuple/list literal")]
 
